@@ -46,10 +46,20 @@ type crashImage struct {
 	op    string
 	pre   *ref.Model
 	post  *ref.Model // filled in when the operation has completed
+	// for a restart (which re-appends the live reports while loading and may
+	// then rotate once) the name of the point does not tell on which side of
+	// the rotation the image lies; the callback records it
+	side string // "", "pre" or "post"
 }
 
 // expected returns the model an image must recover to.
 func (ci *crashImage) expected() *ref.Model {
+	switch ci.side {
+	case "pre":
+		return ci.pre
+	case "post":
+		return ci.post
+	}
 	switch {
 	case strings.HasSuffix(ci.point, ":after-write"), strings.HasSuffix(ci.point, ":after"), strings.HasSuffix(ci.point, ":after-save"), strings.HasSuffix(ci.point, ":after-shift"), strings.HasSuffix(ci.point, ":written"):
 		return ci.post
@@ -98,12 +108,22 @@ func TestC05CrashImages(t *testing.T) {
 		var images []*crashImage
 		var cur []*crashImage
 		curOp := "first start"
+		rotSaved := false
 		var pre *ref.Model
 		server.VerifOn("*", func(g *server.GCAServer, name string) {
 			if !strings.HasPrefix(name, "crash:") || g.BaseDir() != s.dir {
 				return
 			}
 			ci := &crashImage{dir: world.CopyDir(s.dir), point: name, op: curOp, pre: pre}
+			if strings.HasPrefix(curOp, "restart") {
+				if name == "crash:rotate:after-save" {
+					rotSaved = true
+				}
+				ci.side = "pre"
+				if rotSaved {
+					ci.side = "post"
+				}
+			}
 			images = append(images, ci)
 			cur = append(cur, ci)
 		})
@@ -114,6 +134,7 @@ func TestC05CrashImages(t *testing.T) {
 		}()
 		begin := func(op string) {
 			curOp = op
+			rotSaved = false
 			pre = s.M.Clone()
 			cur = nil
 		}
@@ -170,6 +191,23 @@ func TestC05CrashImages(t *testing.T) {
 			},
 			"clock": func(t *rapid.T) {
 				s.setClock(s.now + uint32(rapid.IntRange(1, 400).Draw(t, "adv")))
+			},
+			"restart": func(t *rapid.T) {
+				// a restart, in a third of the cases with a clock that makes the
+				// start-up loop rotate exactly once (crash points fire inside it)
+				now := s.now
+				what := "restart"
+				if rapid.IntRange(0, 2).Draw(t, "catchUp") == 0 {
+					now = s.M.Offset + 4000 + uint32(rapid.IntRange(0, 2015).Draw(t, "phase"))
+					what = "restart with one catch-up rotation"
+				}
+				s.close()
+				begin(what)
+				s.now = now
+				glow.SetCurrentTimeslot(now)
+				s.start()
+				end()
+				s.setClock(s.M.Offset + uint32(rapid.IntRange(0, 1500).Draw(t, "after")))
 			},
 			"rotate": func(t *rapid.T) {
 				if rapid.IntRange(0, 2).Draw(t, "doRotate") != 0 {
